@@ -140,7 +140,7 @@ def run(ctx):
         chk('gt_generator', gt[1] == gt[3] and C.dec_flat(gt[1]) == O.e0(), 'vs generator_pairing and the definitional pairing')
         chk('gt_zero', C.dec_flat(gt[2]) == O.FLAT_ONE, 'vs 1')
     # ---- behaviour: one row per extern "C" function, wrapper vs C++ operation
-    bcfgs = ['prod', 'san', 'p32'] if ctx.quick else ['prod', 'san', 'p64', 'p32', 'p32-san', 'gcc-san']
+    bcfgs = ['prod', 'san', 'p32', 'p64-O0'] if ctx.quick else ['prod', 'san', 'p64', 'p32', 'p32-san', 'gcc-san', 'p64-O0', 'gcc-p64']
     bexes = session.build_exes({c: (c, 'capi_drv.cpp', []) for c in bcfgs})
     # symbol table of the built library objects
     libdir, objs = build.build_lib('prod')
